@@ -23,7 +23,7 @@ pub fn build(quick: bool) -> Check {
     let alpha = alphabet();
     let prefix = vec![Action::Prepare { id: 1, n: 2, ok: true }, Action::Prepare { id: 2, n: 2, ok: true }];
     let mut families: Vec<Box<dyn Family>> = Vec::new();
-    for d in 1..=(if quick { 4 } else { 5 }) {
+    for d in 1..=(if quick { 4 } else { 6 }) {
         families.push(Box::new(Tree { label: "bind-reuse".into(), prefix: prefix.clone(), alpha: alpha.clone(), depth: d }));
     }
     families.push(Box::new(Bfs {
@@ -34,15 +34,16 @@ pub fn build(quick: bool) -> Check {
         max_long: 4,
         max_states: if quick { 2000 } else { 100_000 },
     }));
+    families.push(Box::new(Histories { label: "bind-reuse".into(), hists: scale_types() }));
     Check {
         id: "C16",
         level: "model_checking",
-        rule: format!("two prepared statements of 2 parameters; histories over {} actions: EXECUTE(id 1|2, reuse | bind LONG | TINY UNSIGNED | VAR_STRING | BIGINT UNSIGNED | LONG UNSIGNED (same type code, other signedness; values have the top bit set), first parameter NULL or not), executions whose parameters the shim does not look at, re-PREPARE. Values are position- and step-dependent so that decoding with another statement's or an older type table, or from a shifted offset, gives a different value. Full tree to depth {} plus BFS over model states with two witnesses. Oracle: types and values seen by the shim equal the model's (last table bound for that statement).", alpha.len(), if quick {4} else {5}),
+        rule: format!("two prepared statements of 2 parameters; histories over {} actions: EXECUTE(id 1|2, reuse | bind LONG | TINY UNSIGNED | VAR_STRING | BIGINT UNSIGNED | LONG UNSIGNED (same type code, other signedness; values have the top bit set), first parameter NULL or not), executions whose parameters the shim does not look at, re-PREPARE. Values are position- and step-dependent so that decoding with another statement's or an older type table, or from a shifted offset, gives a different value. Full tree to depth {} plus BFS over model states with two witnesses. Plus 4..300 statements each with its own table, all reused afterwards, and 4 statements under 160..3000 mixed executions. Oracle: types and values seen by the shim equal the model's (last table bound for that statement).", alpha.len(), if quick {4} else {6}),
         assumptions: vec!["reusing types when none were ever bound ends the history (protocol violation by the client)".into()],
-        bounds: json!({"tree_depth": if quick {4} else {5}, "alphabet": alpha.len()}),
+        bounds: json!({"tree_depth": if quick {4} else {6}, "alphabet": alpha.len()}),
         exhaustive: true,
         caps_hit: vec![],
         families,
-        required: vec!["reuse_after_bind", "re_prepare", "bfs_states"],
+        required: vec!["reuse_after_bind", "re_prepare", "bfs_states", "long_histories"],
     }
 }
